@@ -30,10 +30,20 @@ def obligations(res):
     ]
 
 
+class NoCache(dict):
+    """a cache that never remembers: on the fresh side every sub-evaluation is computed, none is looked up"""
+
+    def __setitem__(self, k, v):
+        pass
+
+    def __contains__(self, k):
+        return False
+
+
 def clear_caches(c):
-    """empty every cache of a constraint tree (the 'fresh' side starts from empty caches on every evaluation)"""
+    """the 'fresh' side: no cached value is ever used, neither from earlier trees nor from earlier sub-evaluations of the same tree"""
     if hasattr(c, "cache"):
-        c.cache.clear()
+        c.cache = NoCache()
     for attr in ("constraints",):
         for x in getattr(c, attr, []) or []:
             clear_caches(x)
@@ -184,7 +194,18 @@ def correspondence(res):
                             "verdict and failing-part positions must coincide. non-trivial = run with >= 5 compared evaluations; distinct by (spec, seed)")
     res.coverage["traces_validated_against_impl"] = res.hist.get("evaluations_compared", 0)
     known, _ = common.load_known("C11")
-    for v in viols[:3]:
+    sigs = {k["signature"] for k in known}
+    rest = []
+    for v in viols:
+        only_parts = (v["search_fitness"] == v["fresh_fitness"] and v["search_verdicts"] == v["fresh_verdicts"])
+        quantified = any(q in v["spec"] for q in ("forall ", "exists ", "any(", "all("))
+        if only_parts and quantified and "failing-parts-of-equal-subtrees" in sigs:
+            res.known("failing-parts-of-equal-subtrees: under a quantifier the cache key of the body contains the bound subtree by structural hash; "
+                      "two equal subtrees at different positions share the entry and the failing parts reported for the second are nodes of the first")
+            res.bump("known_failing_parts_equal_subtrees")
+        else:
+            rest.append(v)
+    for v in rest[:3]:
         res.violation("an evaluation made during the search differs from a fresh evaluation of the same tree (fitness / verdict / failing parts)", v)
 
 
